@@ -1340,6 +1340,20 @@ struct PersistSim {
         COutPoint o;
         if (op.mod(2, 4) == 0) {
             o = COutPoint(Txid::FromUint256(uint256{(uint8_t)(1 + op.mod(0, 5))}), (uint32_t)op.mod(0, 3));
+        } else if (op.mod(2, 4) == 3 && WITH_LOCK(w->cs_wallet, return !w->mapWallet.empty())) {
+            // an outpoint that a transaction ALREADY in the wallet spends (CWallet::LockCoin accepts any outpoint): at load time the
+            // wallet re-registers that transaction's spends, which must not drop the lock
+            std::vector<COutPoint> spent;
+            {
+                LOCK(w->cs_wallet);
+                for (const auto& [id, wtx] : w->mapWallet)
+                    if (!wtx.IsCoinBase())
+                        for (const CTxIn& in : wtx.GetTx()->vin) spent.push_back(in.prevout);
+            }
+            std::sort(spent.begin(), spent.end());
+            if (spent.empty()) { ctx.ev("lock: no wallet transaction with inputs"); return; }
+            o = spent[op.mod(0, spent.size())];
+            ctx.probe("locked_outpoint_spent_by_wallet_tx");
         } else {
             std::vector<WalletCoin> coins = wn->AvailableCoins(*w, /*include_unsafe=*/true, /*include_immature=*/false, 0, /*skip_locked=*/false);
             if (coins.empty()) { ctx.ev("lock: wallet has no coin"); return; }
